@@ -6,6 +6,7 @@ import warnings
 
 import numpy as np
 
+from . import argforms as af
 from . import qc
 from .common import f2b
 from .qc import torch
@@ -40,7 +41,11 @@ RULE = ("case = (criterion, evaluator class, patience 1..5, evaluator period 1..
         "quantity; one 'eager' one with a large tolerance, the others 'reluctant' with tolerance 0 / 1e-3) or a callback that sets "
         "stop_training = True at one epoch (in on_epoch_end, as a CallbackBase subclass or a LambdaCallback, or in on_batch_end of that epoch); "
         "also two EVALUATORS (own periods, the same or different quantity names) with one stopper bound to each, all callbacks in "
-        "a shuffled list order (oracle only); non-trivial iff some stopper made a comparison")
+        "a shuffled list order (oracle only); non-trivial iff some stopper made a comparison. "
+        "ARGUMENT FORMS (every generated case, stream `aseed`): the periods of evaluators and stoppers, patience, num_samples, the epochs / "
+        "starting_epoch / pos_batch_size / k of fit and the sizes of the state are handed over as Python int, numpy.int64 / int32 / intp / uint8, "
+        "0-d integer numpy array or 0-d integer torch tensor; verbose (falsy) and gpu as bool, int, numpy.bool_, numpy comparison result, 0-d numpy "
+        "array or 0-d torch tensor; evaluator constructors by keyword or positionally")
 
 
 # ---------------------------------------------------------------- scripted sequences
@@ -141,6 +146,37 @@ def reference(case):
     return None, fired, compared, degenerate, f8_epoch
 
 
+# ---------------------------------------------------------------- argument forms (round 5): see harness/argforms.py
+# Every integer option of the calls below (periods of the evaluators and of the stoppers, patience, num_samples of the
+# ObservableEvaluator, epochs / starting_epoch / pos_batch_size / k of fit, the sizes of the state) is handed over in one of the integer
+# forms, every boolean option (verbose - falsy only: what is printed is not constrained -, gpu) in one of the flag forms, drawn from the
+# case's own stream `aseed`; the model and the reference procedure are told the VALUES (case["pe"], case["ps"], trunc(patience_arg)).
+def tiny_state(fm):
+    return qc.PositiveWaveFunction(fm.i("num_visible", 2), fm.i("num_hidden", 2), gpu=fm.gpu())
+
+
+def fit_args(fm, last, first):
+    F = af.FIT_INT
+    return dict(epochs=fm.i("epochs", last, F["epochs"]), starting_epoch=fm.i("starting_epoch", first, F["starting_epoch"]),
+                pos_batch_size=fm.i("pos_batch_size", 4, F["pos_batch_size"]), k=fm.i("k", 1, F["k"]), lr=0.01)
+
+
+def metric_evaluator(fm, pe, metrics):
+    from qucumber.callbacks import MetricEvaluator
+
+    per, vb = fm.i("evaluator period", pe, af.PERIOD_INT), fm.f("verbose", False)
+    return MetricEvaluator(per, metrics, vb) if fm.pos("MetricEvaluator(period, metrics, verbose)") else MetricEvaluator(per, metrics, verbose=vb)
+
+
+def observable_evaluator(fm, pe, obs):
+    from qucumber.callbacks import ObservableEvaluator
+
+    per, vb, ns = fm.i("evaluator period", pe, af.PERIOD_INT), fm.f("verbose", False), fm.i("num_samples", 2)
+    if fm.pos("ObservableEvaluator(period, observables, verbose)"):
+        return ObservableEvaluator(per, obs, vb, num_samples=ns)
+    return ObservableEvaluator(per, obs, verbose=vb, num_samples=ns)
+
+
 # ---------------------------------------------------------------- the real run
 class EpochRecorder(qc.qucumber.callbacks.CallbackBase):
     def __init__(self, table):
@@ -165,21 +201,22 @@ class Tail(qc.qucumber.callbacks.CallbackBase):
         self.rec.mark(ep)
 
 
-def build_stopper(case, evaluator):
+def build_stopper(case, evaluator, fm=None):
     from qucumber.callbacks import EarlyStopping, VarianceBasedEarlyStopping
 
+    fm = fm or af.Forms(None)
+    ps, pa = fm.i("stopper period", case["ps"], af.PERIOD_INT), fm.i("patience", case["patience_arg"])
     if case.get("deprecated"):
-        return VarianceBasedEarlyStopping(case["ps"], case["tol"], case["patience_arg"], evaluator, case["name"],
-                                          variance_name=case.get("variance_name"))
-    return EarlyStopping(case["ps"], case["tol"], case["patience_arg"], evaluator, case["name"], criterion=case["criterion_str"])
+        return VarianceBasedEarlyStopping(ps, case["tol"], pa, evaluator, case["name"], variance_name=case.get("variance_name"))
+    return EarlyStopping(ps, case["tol"], pa, evaluator, case["name"], criterion=case["criterion_str"])
 
 
-def run_impl(case):
-    from qucumber.callbacks import MetricEvaluator, ObservableEvaluator
+def run_impl(case, ctx=None):
     from qucumber.observables import SigmaZ
 
     torch.manual_seed(0)
-    st = qc.PositiveWaveFunction(2, 2, gpu=False)
+    fm = af.Forms(case.get("aseed"), ctx)
+    st = tiny_state(fm)
     data = torch.tensor([[0, 1], [1, 1], [1, 0], [0, 0]], dtype=torch.double)
     table = {e: w for e, w in case["pre"] + case["cands"]}
     rec = EpochRecorder(table)
@@ -187,11 +224,11 @@ def run_impl(case):
     vars_ = [as_kind(k, x) for k, x in zip(case["vkinds"], case["vars"])] if case["ek"] == "observable" else None
     track = case.get("tracked_name", case["name"])
     if case["ek"] == "metric":
-        ev = MetricEvaluator(case["pe"], {track: lambda nn_state: vals[rec.cur]})
+        ev = metric_evaluator(fm, case["pe"], {track: lambda nn_state: vals[rec.cur]})
     elif case["ek"] == "observable":
         obs = SigmaZ()
         obs.name = track
-        ev = ObservableEvaluator(case["pe"], [obs], num_samples=2)
+        ev = observable_evaluator(fm, case["pe"], [obs])
         ev.system.statistics = lambda nn_state, **kw: {track: {"mean": vals[rec.cur], "variance": vars_[rec.cur],
                                                                 "std_error": 0.0, "num_samples": 1}}
     else:
@@ -200,21 +237,20 @@ def run_impl(case):
     try:
         with warnings.catch_warnings():
             warnings.simplefilter("ignore")
-            stopper = build_stopper(case, ev)
+            stopper = build_stopper(case, ev, fm)
     except Exception as e:  # noqa: BLE001
         return {"error": type(e).__name__, "where": "constructor"}
-    res["ctor"] = {"criterion": stopper.criterion, "patience": stopper.patience, "period": stopper.period}
+    res["ctor"] = {"criterion": stopper.criterion, "patience": stopper.patience, "period": af.plain(stopper.period)}
     tail = Tail(rec)
     with warnings.catch_warnings():        # numpy's floating-point warnings are left at their defaults (a warning, not an error)
         warnings.simplefilter("ignore")
         try:
             if case["pre"]:
-                st.fit(data, epochs=case["pre"][-1][0], starting_epoch=case["pre"][0][0], pos_batch_size=4, k=1, lr=0.01,
-                       callbacks=[rec, ev, tail])
+                st.fit(data, callbacks=[rec, ev, tail], **fit_args(fm, case["pre"][-1][0], case["pre"][0][0]))
                 rec.fired = []
             cbl = [rec, ev, stopper, tail] if case["eval_first"] else [rec, stopper, ev, tail]
             if case["cands"]:
-                st.fit(data, epochs=case["cands"][-1][0], starting_epoch=case["cands"][0][0], pos_batch_size=4, k=1, lr=0.01, callbacks=cbl)
+                st.fit(data, callbacks=cbl, **fit_args(fm, case["cands"][-1][0], case["cands"][0][0]))
         except Exception as e:  # noqa: BLE001
             return {"error": type(e).__name__, "where": "fit", "fired_before": list(rec.fired), "ctor": res["ctor"]}
     res.update({"stop": bool(st.stop_training), "last_epoch": stopper.last_epoch, "fired": list(rec.fired),
@@ -241,7 +277,7 @@ def model_args(case):
 
 
 def one_case(ctx, case, known_probe=False):
-    impl = run_impl(case)
+    impl = run_impl(case, ctx)
     ref_stop, ref_fired, compared, degenerate, f8_epoch = reference(case) if case.get("valid", True) else (None, [], False, [], None)
     sig0 = f"EarlyStopping/{case['criterion']}/{case['ek']}"
     # the pre-F8-fix behaviour: ZeroDivisionError out of fit at a relative comparison of Python scalars with a zero reference
@@ -322,9 +358,10 @@ class Requester(qc.qucumber.callbacks.CallbackBase):
             st.stop_training = True
 
 
-def build_source(src, case, ev):
+def build_source(src, case, ev, fm=None):
     from qucumber.callbacks import EarlyStopping, LambdaCallback, VarianceBasedEarlyStopping
 
+    fm = fm or af.Forms(None)
     if src["kind"] == "request":
         if src.get("form") == "lambda" and src["when"] == "epoch_end":
             eps = set(src["epochs"])
@@ -335,17 +372,18 @@ def build_source(src, case, ev):
             return LambdaCallback(on_epoch_end=ask)
         return Requester(src["epochs"], src["when"])
     name = case["quantities"][src["q"]]["name"]
+    ps, pa = fm.i("stopper period", src["ps"], af.PERIOD_INT), fm.i("patience", src["patience_arg"])
     if src.get("deprecated"):
-        return VarianceBasedEarlyStopping(src["ps"], src["tol"], src["patience_arg"], ev, name)
-    return EarlyStopping(src["ps"], src["tol"], src["patience_arg"], ev, name, criterion=src["criterion_str"])
+        return VarianceBasedEarlyStopping(ps, src["tol"], pa, ev, name)
+    return EarlyStopping(ps, src["tol"], pa, ev, name, criterion=src["criterion_str"])
 
 
-def run_impl_multi(case):
-    from qucumber.callbacks import MetricEvaluator, ObservableEvaluator
+def run_impl_multi(case, ctx=None):
     from qucumber.observables import SigmaZ
 
     torch.manual_seed(0)
-    st = qc.PositiveWaveFunction(2, 2, gpu=False)
+    fm = af.Forms(case.get("aseed"), ctx, "multi: ")
+    st = tiny_state(fm)
     data = torch.tensor([[0, 1], [1, 1], [1, 0], [0, 0]], dtype=torch.double)
     table = {e: w for e, w in case["pre"] + case["cands"]}
     rec = EpochRecorder(table)
@@ -353,21 +391,21 @@ def run_impl_multi(case):
     vals = [[as_kind(k, x) for k, x in zip(q["kinds"], q["vals"])] for q in qs]
     vars_ = [[as_kind(k, x) for k, x in zip(q["vkinds"], q["vars"])] for q in qs]
     if case["ek"] == "metric":
-        ev = MetricEvaluator(case["pe"], {q["name"]: (lambda nn_state, i=i: vals[i][rec.cur]) for i, q in enumerate(qs)})
+        ev = metric_evaluator(fm, case["pe"], {q["name"]: (lambda nn_state, i=i: vals[i][rec.cur]) for i, q in enumerate(qs)})
     else:
         obs = []
         for q in qs:
             o = SigmaZ()
             o.name = q["name"]
             obs.append(o)
-        ev = ObservableEvaluator(case["pe"], obs, num_samples=2)
+        ev = observable_evaluator(fm, case["pe"], obs)
         ev.system.statistics = lambda nn_state, **kw: {q["name"]: {"mean": vals[i][rec.cur], "variance": vars_[i][rec.cur],
                                                                     "std_error": 0.0, "num_samples": 1} for i, q in enumerate(qs)}
     try:
         with warnings.catch_warnings():
             warnings.simplefilter("ignore")
-            before = [build_source(s_, case, ev) for s_ in case["before"]]
-            after = [build_source(s_, case, ev) for s_ in case["after"]]
+            before = [build_source(s_, case, ev, fm) for s_ in case["before"]]
+            after = [build_source(s_, case, ev, fm) for s_ in case["after"]]
     except Exception as e:  # noqa: BLE001
         return {"error": type(e).__name__, "where": "constructor"}
     tail = Tail(rec)
@@ -375,12 +413,10 @@ def run_impl_multi(case):
         warnings.simplefilter("ignore")
         try:
             if case["pre"]:
-                st.fit(data, epochs=case["pre"][-1][0], starting_epoch=case["pre"][0][0], pos_batch_size=4, k=1, lr=0.01,
-                       callbacks=[rec, ev, tail])
+                st.fit(data, callbacks=[rec, ev, tail], **fit_args(fm, case["pre"][-1][0], case["pre"][0][0]))
                 rec.fired = []
             if case["cands"]:
-                st.fit(data, epochs=case["cands"][-1][0], starting_epoch=case["cands"][0][0], pos_batch_size=4, k=1, lr=0.01,
-                       callbacks=[rec] + before + [ev] + after + [tail])
+                st.fit(data, callbacks=[rec] + before + [ev] + after + [tail], **fit_args(fm, case["cands"][-1][0], case["cands"][0][0]))
         except Exception as e:  # noqa: BLE001
             return {"error": type(e).__name__, "where": "fit", "fired_before": list(rec.fired)}
     lasts = [cb.last_epoch for s_, cb in zip(case["before"] + case["after"], before + after) if s_["kind"] == "stopper"]
@@ -456,7 +492,7 @@ def model_args_multi(case):
 def one_multi(ctx, case):
     if case.get("two_evaluators"):
         return one_chain(ctx, case)
-    impl = run_impl_multi(case)
+    impl = run_impl_multi(case, ctx)
     ref_stop, ref_fired, compared, asking, contested = reference_multi(case)
     order = dispatch_order(case)
     stoppers = [k for k, (s_, _) in enumerate(order) if s_["kind"] == "stopper"]      # same relative order as impl["lasts"]
@@ -510,32 +546,33 @@ def one_multi(ctx, case):
 
 # ---- stoppers bound to DIFFERENT evaluators in one fit (oracle only: the Lean model has one evaluator per run; each stopper's decision
 #      on its own evaluator is C18_first_stop, the flag through the dispatch C18_stop_request_stands_dispatch)
-def build_evaluator(evd, qs, rec):
-    from qucumber.callbacks import MetricEvaluator, ObservableEvaluator
+def build_evaluator(evd, qs, rec, fm=None):
     from qucumber.observables import SigmaZ
 
+    fm = fm or af.Forms(None)
     vals = [[as_kind(k, x) for k, x in zip(q["kinds"], q["vals"])] for q in qs]
     vars_ = [[as_kind(k, x) for k, x in zip(q["vkinds"], q["vars"])] for q in qs]
     if evd["ek"] == "metric":
-        return MetricEvaluator(evd["pe"], {q["name"]: (lambda nn_state, i=i: vals[i][rec.cur]) for i, q in enumerate(qs)})
+        return metric_evaluator(fm, evd["pe"], {q["name"]: (lambda nn_state, i=i: vals[i][rec.cur]) for i, q in enumerate(qs)})
     obs = []
     for q in qs:
         o = SigmaZ()
         o.name = q["name"]
         obs.append(o)
-    ev = ObservableEvaluator(evd["pe"], obs, num_samples=2)
+    ev = observable_evaluator(fm, evd["pe"], obs)
     ev.system.statistics = lambda nn_state, **kw: {q["name"]: {"mean": vals[i][rec.cur], "variance": vars_[i][rec.cur],
                                                                 "std_error": 0.0, "num_samples": 1} for i, q in enumerate(qs)}
     return ev
 
 
-def run_impl_chain(case):
+def run_impl_chain(case, ctx=None):
     torch.manual_seed(0)
-    st = qc.PositiveWaveFunction(2, 2, gpu=False)
+    fm = af.Forms(case.get("aseed"), ctx, "multi: ")
+    st = tiny_state(fm)
     data = torch.tensor([[0, 1], [1, 1], [1, 0], [0, 0]], dtype=torch.double)
     rec = EpochRecorder({e: w for e, w in case["cands"]})
     qs = case["quantities"]
-    evs = [build_evaluator(evd, [q for q in qs if q["ev"] == i], rec) for i, evd in enumerate(case["evaluators"])]
+    evs = [build_evaluator(evd, [q for q in qs if q["ev"] == i], rec, fm) for i, evd in enumerate(case["evaluators"])]
     cbs, stoppers = [], []
     try:
         with warnings.catch_warnings():
@@ -544,7 +581,7 @@ def run_impl_chain(case):
                 if it["kind"] == "evaluator":
                     cbs.append(evs[it["i"]])
                 else:
-                    cb = build_source(it, case, evs[qs[it["q"]]["ev"]] if it["kind"] == "stopper" else None)
+                    cb = build_source(it, case, evs[qs[it["q"]]["ev"]] if it["kind"] == "stopper" else None, fm)
                     cbs.append(cb)
                     if it["kind"] == "stopper":
                         stoppers.append(cb)
@@ -553,8 +590,7 @@ def run_impl_chain(case):
     with warnings.catch_warnings():
         warnings.simplefilter("ignore")
         try:
-            st.fit(data, epochs=case["cands"][-1][0], starting_epoch=case["cands"][0][0], pos_batch_size=4, k=1, lr=0.01,
-                   callbacks=[rec] + cbs + [Tail(rec)])
+            st.fit(data, callbacks=[rec] + cbs + [Tail(rec)], **fit_args(fm, case["cands"][-1][0], case["cands"][0][0]))
         except Exception as e:  # noqa: BLE001
             return {"error": type(e).__name__, "where": "fit", "fired_before": list(rec.fired)}
     return {"stop": bool(st.stop_training), "fired": list(rec.fired), "lasts": [cb.last_epoch for cb in stoppers], "lens": [len(ev) for ev in evs]}
@@ -595,7 +631,7 @@ def reference_chain(case):
 
 
 def one_chain(ctx, case):
-    impl = run_impl_chain(case)
+    impl = run_impl_chain(case, ctx)
     ref_stop, ref_fired, compared, asking, stoppers = reference_chain(case)
     sig0 = "EarlyStopping/multi/two-evaluators"
     ctx.case(case, nontrivial=compared, sample={"multi": "two_evaluators", "chain": [[it["kind"], it.get("i", it.get("q"))] for it in case["chain"]],
@@ -641,7 +677,7 @@ def mk_chain(rng):
                            "kinds": make_kinds(rng, kindmode, n), "vars": [rng.choice([0.25, 1.0, 4.0, 100.0]) for _ in range(n)],
                            "vkinds": make_kinds(rng, kindmode, n)})
     return {"multi": True, "two_evaluators": True, "scenario": "two_evaluators", "evaluators": evaluators, "quantities": quantities,
-            "chain": chain, "pre": [], "cands": cands, "kindmode": kindmode, "valid": True}
+            "chain": chain, "pre": [], "cands": cands, "kindmode": kindmode, "valid": True, "aseed": af.new_seed(rng)}
 
 
 MULTI_SCENARIOS = ["two_stoppers", "two_stoppers", "two_quantities", "request_epoch_end", "request_batch_end", "mixed", "stopper_then_request"]
@@ -708,7 +744,7 @@ def mk_multi(rng, scenario, thorough=False):
         quantities.append({"name": names[i], "family": fam, "vals": make_seq(rng, fam, total), "kinds": make_kinds(rng, kindmode, total),
                            "vars": vars_, "vkinds": make_kinds(rng, kindmode, total)})
     return {"multi": True, "scenario": scenario, "ek": ek, "pe": pe, "quantities": quantities, "before": before, "after": after,
-            "pre": pre, "cands": cands, "kindmode": kindmode, "valid": True}
+            "pre": pre, "cands": cands, "kindmode": kindmode, "valid": True, "aseed": af.new_seed(rng)}
 
 
 def demo_like_multi():
@@ -779,7 +815,7 @@ def mk_case(rng, criterion, p, pe, ps, eval_first, tol, family, kindmode, start=
             "ek": ek, "patience": p, "patience_arg": rng.choice([p, p, p + 0.7]), "pe": pe, "ps": ps, "eval_first": eval_first, "tol": tol,
             "family": family, "kindmode": kindmode, "name": QUANTITY_NAMES[(7 * p + 3 * pe + ps + total + len(family)) % len(QUANTITY_NAMES)],
             "pre": pre, "cands": cands, "vals": vals, "kinds": kinds,
-            "vars": vars_, "vkinds": vkinds, "deprecated": deprecated, "valid": True}
+            "vars": vars_, "vkinds": vkinds, "deprecated": deprecated, "valid": True, "aseed": af.new_seed(rng)}
     if extra:
         case.update(extra)
     return case
@@ -814,14 +850,15 @@ def gen_cases(ctx, thorough):
         for ef in (True, False):
             for tol in (0.01, float("inf")):
                 w = f8_witness()
-                w.update(kinds=[km] * 5, kindmode=km, eval_first=ef, tol=tol)
+                w.update(kinds=[km] * 5, kindmode=km, eval_first=ef, tol=tol, aseed=af.new_seed(rng))
                 yield w
     # variance criterion: variance exactly 0 / negative / nan at the reference, Python and numpy kinds, tol = inf
     for v0 in (0.0, -1.0, float("nan")):
         for km in ("py", "np"):
             w = f8_witness()
             w.update(criterion="variance", criterion_str="variance", ek="observable", vals=[1.0, 1.0, 1.0, 1.0, 1.0],
-                     vars=[v0, v0, 1.0, 1.0, 1.0], kinds=[km] * 5, vkinds=[km] * 5, kindmode=km, tol=float("inf"), family="constant")
+                     vars=[v0, v0, 1.0, 1.0, 1.0], kinds=[km] * 5, vkinds=[km] * 5, kindmode=km, tol=float("inf"), family="constant",
+                     aseed=af.new_seed(rng))
             yield w
 
 
@@ -842,7 +879,7 @@ def ctor_cases(rng):
 
 
 def run_ctor(ctx, case):
-    impl = run_impl(case)
+    impl = run_impl(case, ctx)
     ctx.case({"ctor": [case["ek"], case["criterion_str"], repr(case["patience_arg"]), case["deprecated"]]}, nontrivial=True)
     ctx.count("ctor." + (impl.get("error") if impl.get("where") == "constructor" else "ok"))
     cs = case["criterion_str"].strip().lower()
